@@ -159,7 +159,8 @@ def explore(scen, cfg, budget=0, max_exec=5000, validate_merges=True, stateless=
             viols[sg]["count"] = viols[sg].get("count", 0) + 1
         fv = json.dumps({k: v for k, v in sorted(x.view.items())}, sort_keys=True)
         if fv not in views:
-            views[fv] = dict(choices=x.choices, result=list(x.result))
+            views[fv] = dict(choices=x.choices, result=list(x.result),
+                             c03=sorted({str(v.get("cls")) for v in vs if v["prop"] == "C03"}))
         if sample is None:
             sample = dict(choices=x.choices, result=list(x.result),
                           trace=[list(e) for e in x.run.trace[:60]])
